@@ -16,6 +16,7 @@ from engine.pyse.api import contract
 OPS = [
     "stats", "oned", "to_energy", "split", "smooth", "interp", "rotate", "scale_by_hs", "ptm1", "ptm3", "ptm4", "ptm5", "bbox",
     "sel_nearest", "sel_idw", "sel_bbox", "to_swan", "to_octopus", "to_json", "to_funwave", "plot_free",
+    "to_netcdf", "to_netcdf_fails", "to_ww3", "smooth_direct", "ptm1_smooth",
 ]
 
 
@@ -58,7 +59,9 @@ def _dataset(c, backing):
     r = np.random.default_rng(c.rng.randint(0, 2**31))
     nt, ns, nf, nd = 3, 2, 10, 8
     f = 0.05 * 1.15 ** np.arange(nf)
-    d = np.roll(np.arange(nd) * 45.0, c.rng.randrange(0, nd))
+    # directions that are not float32-representable (a silent cast of the caller's coordinate shows), stored
+    # ascending or rolled
+    d = np.roll(7.3 + np.arange(nd) * 45.0, c.rng.choice([0, 0, c.rng.randrange(0, nd)]))
     base = r.uniform(0, 4, (nt, ns, nf, nd + 2))
     E = base[..., 1:-1] if backing == "view" else base[..., 1:-1].copy()
     ds = xr.Dataset(
@@ -110,7 +113,10 @@ def v_frame(c, op, backing):
                 args = {"lons": np.array([359.0, 0.5]), "lats": np.array([-10.1, -9.7])}
             snaps = {k: _snapshot(v) for k, v in args.items() if v is not None}
             extra = {n: ds[n] for n in ("wspd", "wdir", "dpt")}
+            ds["time"].encoding["units"] = "hours since 2000-01-01"
+            da = ds["efth"]
             ds_snap = _snapshot(ds)
+            da_snap = _snapshot(da)
             try:
                 if op == "stats":
                     ds.spec.stats(args["stats"]).compute()
@@ -154,10 +160,24 @@ def v_frame(c, op, backing):
                     ds.isel(time=0, site=0).spec.to_funwave(os.path.join(tmp, "a.txt"), clip=False)
                 elif op == "plot_free":
                     ds.spec.hs().compute()
+                elif op == "to_netcdf":
+                    ds.spec.to_netcdf(os.path.join(tmp, "a.nc"), ncformat="NETCDF3_64BIT", compress=False)
+                elif op == "to_netcdf_fails":
+                    ds.spec.to_netcdf(os.path.join(tmp, "no_such_directory", "a.nc"), ncformat="NETCDF3_64BIT", compress=False)
+                elif op == "to_ww3":
+                    ds.spec.to_ww3(os.path.join(tmp, "a.nc"))
+                elif op == "smooth_direct":
+                    from wavespectra.core.utils import smooth_spec
+
+                    smooth_spec(da, 3, 3).compute()
+                elif op == "ptm1_smooth":
+                    da.spec.partition.ptm1(ds.wspd, ds.wdir, ds.dpt, swells=2, smooth=True).compute()
             except Exception as e:  # an operation may legitimately refuse an input; the frame must hold anyway
-                c.ensure_true("raises_only_documented_errors", isinstance(e, (ValueError, NotImplementedError, KeyError, ImportError, ModuleNotFoundError, AssertionError, TypeError, AttributeError)),
+                c.ensure_true("raises_only_documented_errors", isinstance(e, (ValueError, NotImplementedError, KeyError, ImportError, ModuleNotFoundError, AssertionError, TypeError, AttributeError, OSError)),
                               f"{type(e).__name__}: {e}")
             c.ensure_true("dataset_bit_for_bit_unchanged", _same(ds, ds_snap), f"{op}: dataset (values/coords/attrs/encoding/dims) changed")
+            c.ensure_true("array_the_method_was_called_on_unchanged", _same(da, da_snap) and all(da[k].dtype == da_snap[1][k].dtype for k in da.coords),
+                          f"{op}: the DataArray the accessor was taken from changed (values/coords/coordinate dtypes/attrs)")
             for k, sn in snaps.items():
                 c.ensure_true("arguments_unchanged", _same(args[k], sn), f"{op}: argument {k} changed")
             if backing == "view":
